@@ -24,6 +24,7 @@ import (
 	"github.com/anishathalye/porcupine"
 	"pgregory.net/rapid"
 
+	"verif/harness/drv"
 	"verif/harness/nfsx"
 	"verif/harness/stat"
 	"verif/harness/vfs"
@@ -31,7 +32,7 @@ import (
 
 type lzIn struct {
 	Client int    `json:"client"`
-	Op     string `json:"op"` // lookup create mkdir remove rename write read getattr setsize readdir
+	Op     string `json:"op"` // lookup create mkdir remove rename write read getattr setsize readdir; on shared objects (replies not judged): touchdir shwrite shsetsize shread shgetattr shtouch
 	Name   string `json:"name,omitempty"`
 	Name2  string `json:"name2,omitempty"`
 	Off    int    `json:"off,omitempty"`
@@ -62,17 +63,20 @@ func genC29(t *rapid.T) c29Case {
 		n := rapid.IntRange(3, 6).Draw(t, "nops")
 		names := []string{fmt.Sprintf("c%da", ci), fmt.Sprintf("c%db", ci)}
 		for i := 0; i < n; i++ {
-			op := lzIn{Client: ci, Op: pick(t, "op", "create", "create", "write", "write", "read", "getattr", "setsize", "remove", "mkdir", "rename", "lookup", "readdir"),
+			op := lzIn{Client: ci, Op: pick(t, "op", "create", "create", "write", "write", "read", "getattr", "setsize", "remove", "mkdir", "rename", "lookup", "readdir", "touchdir", "touchdir", "shwrite", "shsetsize", "shread", "shgetattr", "shtouch"),
 				Name: rapid.SampledFrom(names).Draw(t, "name")}
 			switch op.Op {
 			case "rename":
 				op.Name2 = rapid.SampledFrom(names).Draw(t, "name2")
-			case "write":
+			case "write", "shwrite":
 				op.Off, op.Len, op.Fill = rapid.IntRange(0, 12).Draw(t, "off"), rapid.IntRange(1, 8).Draw(t, "len"), rapid.Byte().Draw(t, "fill")
-			case "read":
+			case "read", "shread":
 				op.Off, op.Len = rapid.IntRange(0, 12).Draw(t, "off"), rapid.IntRange(1, 24).Draw(t, "len")
-			case "setsize":
+			case "setsize", "shsetsize":
 				op.Len = rapid.IntRange(0, 16).Draw(t, "size")
+			}
+			if strings.HasPrefix(op.Op, "sh") || op.Op == "touchdir" {
+				op.Name = ""
 			}
 			ops = append(ops, op)
 		}
@@ -235,15 +239,28 @@ func lzStep(st lzState, in lzIn, out lzOut) (bool, lzState) {
 		}
 		return bytes.Equal(out.Data, want), st
 	case "readdir":
+		// Only the caller's own names are judged: they are touched by no other
+		// client, so the listing must show exactly those of them that exist. Names
+		// another client is creating, removing or renaming while the listing is
+		// assembled are outside the statement's "requests touch distinct names".
 		if !out.OK {
 			return false, st
 		}
-		ks := make([]string, 0, len(st))
+		pre := fmt.Sprintf("c%d", in.Client)
+		var ks, got []string
 		for k := range st {
-			ks = append(ks, k)
+			if strings.HasPrefix(k, pre) {
+				ks = append(ks, k)
+			}
+		}
+		for _, k := range out.Names {
+			if strings.HasPrefix(k, pre) {
+				got = append(got, k)
+			}
 		}
 		sort.Strings(ks)
-		return strings.Join(ks, ",") == strings.Join(out.Names, ","), st
+		sort.Strings(got)
+		return strings.Join(ks, ",") == strings.Join(got, ","), st
 	}
 	return false, st
 }
@@ -264,14 +281,21 @@ func runC29(tb stat.TB, c c29Case) {
 	const id, check = "C29", "TestC29"
 	v := vfs.New()
 	v.SeedDir("/s", 0755, 0, 0)
+	v.SeedFile("/s/shared", 0644, 0, 0, []byte("shared file"))
 	cfg := cacheCfg{AttrTTLns: 1, AttrSize: 1}
 	if c.Cached {
 		cfg = cacheCfg{AttrTTLns: 3600e9, AttrSize: 10000, DirCache: true, Negative: true}
 	}
 	opts := newOpts(cfg)
 	opts.MaxWorkers = 4
+	opts.Timeouts = drv.FastTimeouts(8 * time.Second)
 	s := newSession(tb, v, opts)
-	defer s.close()
+	leak := false
+	defer func() {
+		if !leak { // after a confirmed hang Close could block on the same locks
+			s.close()
+		}
+	}()
 	s.tolerateMalformed = true
 	root := s.mount()
 	dr := s.nfs(nfsx.ProcLookup, nfsx.ArgsDirop(root, "s"))
@@ -279,6 +303,12 @@ func runC29(tb stat.TB, c c29Case) {
 		tb.Fatalf("harness: lookup /s")
 	}
 	dir := dr.Fh
+	shr := s.nfs(nfsx.ProcLookup, nfsx.ArgsDirop(dir, "shared"))
+	if shr.Status != nfsx.OK {
+		tb.Fatalf("harness: lookup /s/shared")
+	}
+	shared := shr.Fh
+	var timedOut int32
 
 	// jitter inside the backend
 	var lcg uint32 = c.Jitter | 1
@@ -305,6 +335,10 @@ func runC29(tb stat.TB, c c29Case) {
 			handles := map[string][]byte{}
 			for _, in := range ops {
 				fh := handles[in.Name]
+				judged := true
+				if strings.HasPrefix(in.Op, "sh") || in.Op == "touchdir" {
+					judged = false
+				}
 				if fh == nil && (in.Op == "write" || in.Op == "read" || in.Op == "getattr" || in.Op == "setsize") {
 					continue // the client has no handle for that name yet
 				}
@@ -319,7 +353,10 @@ func runC29(tb stat.TB, c c29Case) {
 				func() {
 					defer func() {
 						if r := recover(); r != nil {
-							if _, ok := r.(abandon); ok {
+							if a, ok := r.(abandon); ok {
+								if strings.Contains(a.why, "timed out") {
+									atomic.AddInt32(&timedOut, 1)
+								}
 								res = nil
 								return
 							}
@@ -364,6 +401,19 @@ func runC29(tb stat.TB, c c29Case) {
 						if res.Status == nfsx.OK {
 							out.Kind, out.Size = kindOfType(res.Attr.Type), int(res.Attr.Size)
 						}
+					case "touchdir":
+						res = s.nfs(nfsx.ProcSetattr, nfsx.ArgsSetattr(dir, nfsx.Sattr{Mtime: nfsx.SetTime{How: 1}}, nil))
+					case "shtouch":
+						res = s.nfs(nfsx.ProcSetattr, nfsx.ArgsSetattr(shared, nfsx.Sattr{Mtime: nfsx.SetTime{How: 1}, Mode: nfsx.U32p(0640 + uint32(in.Client))}, nil))
+					case "shwrite":
+						p := payload(in)
+						res = s.nfs(nfsx.ProcWrite, nfsx.ArgsWrite(shared, uint64(in.Off), uint32(len(p)), nfsx.FileSync, p))
+					case "shsetsize":
+						res = s.nfs(nfsx.ProcSetattr, nfsx.ArgsSetattr(shared, nfsx.Sattr{Size: nfsx.U64p(uint64(in.Len))}, nil))
+					case "shread":
+						res = s.nfs(nfsx.ProcRead, nfsx.ArgsRead(shared, uint64(in.Off), uint32(in.Len)))
+					case "shgetattr":
+						res = s.nfs(nfsx.ProcGetattr, nfsx.ArgsFh(shared))
 					case "readdir":
 						res = s.nfs(nfsx.ProcReaddir, nfsx.ArgsReaddir(dir, 0, [8]byte{}, 65536))
 						if res.Status == nfsx.OK {
@@ -376,8 +426,8 @@ func runC29(tb stat.TB, c c29Case) {
 				}()
 				ret := atomic.AddInt64(&clock, 1)
 				atomic.AddInt32(&inflight, -1)
-				if res == nil || res.Status >= 0xFFFFFFFE {
-					continue // unusable reply (judged by C14)
+				if res == nil || res.Status >= 0xFFFFFFFE || !judged {
+					continue // unusable reply (judged by C14), or an operation on a shared object
 				}
 				out.OK, out.Stat = res.Status == nfsx.OK, res.Status
 				mu.Lock()
@@ -390,13 +440,32 @@ func runC29(tb stat.TB, c c29Case) {
 	go func() { wg.Wait(); close(done) }()
 	select {
 	case <-done:
-	case <-time.After(30 * time.Second):
+	case <-time.After(120 * time.Second):
+		leak = true
 		buf := make([]byte, 1<<16)
 		n := runtime.Stack(buf, true)
-		stat.Violate(tb, id, check, "concurrent-requests-hang", c, "client goroutines did not finish within 30 s; goroutines:\n%s", buf[:n])
+		stat.Violate(tb, id, check, "concurrent-requests-hang", c, "client goroutines did not finish within 120 s; goroutines:\n%s", buf[:n])
 		return
 	}
 	v.SetBefore(nil)
+	if atomic.LoadInt32(&timedOut) > 0 {
+		// HandleCall gave up on a request after 8 s although the backend never
+		// blocks. Slow machine or a hang? A hung request's worker goroutine is
+		// still there, parked on a lock, well after every client has finished.
+		time.Sleep(time.Second)
+		buf := make([]byte, 4<<20)
+		n := runtime.Stack(buf, true)
+		for _, g := range strings.Split(string(buf[:n]), "\n\n") {
+			if strings.Contains(g, "absnfs.(*NFSProcedureHandler).HandleCall.func") && (strings.Contains(g, "sync.(*RWMutex)") || strings.Contains(g, "sync.(*Mutex)") || strings.Contains(g, "semacquire")) {
+				leak = true
+				stat.Violate(tb, id, check, "concurrent-requests-hang", c, "%d request(s) got no reply within 8 s and a request goroutine is still parked on a lock after all clients finished (deadlock):\n%s", timedOut, g)
+				return
+			}
+		}
+		stat.Inconclusive("C29: a request timed out but no goroutine is stuck (slow machine)")
+		stat.Discard(false)
+		return
+	}
 
 	describe := func() string {
 		var b strings.Builder
@@ -494,7 +563,11 @@ func runC29(tb stat.TB, c c29Case) {
 		}
 	}
 	for ci := range c.Clients {
-		for _, n := range []string{fmt.Sprintf("c%da", ci), fmt.Sprintf("c%db", ci)} {
+		own := []string{fmt.Sprintf("c%da", ci), fmt.Sprintf("c%db", ci)}
+		if ci == 0 {
+			own = append(own, "shared")
+		}
+		for _, n := range own {
 			ent, exists := snap["/s/"+n]
 			r := s.nfs(nfsx.ProcLookup, nfsx.ArgsDirop(dir, n))
 			if exists != (r.Status == nfsx.OK) {
